@@ -3,6 +3,7 @@ import Driver.Ops.Label
 import EncodingRs.Model.Decoder
 import EncodingRs.Model.L1
 import EncodingRs.Model.MaxLen
+import EncodingRs.Model.ReplCall
 import EncodingRs.Model.Unicode
 /-!
 Driver operation `dec`: replays a whole history of `Decoder` calls made by the
@@ -144,17 +145,18 @@ def checkRaw {F : Fam} (k : Sink) (d : Decoder F) (src : List Nat) (c : CallRec)
   tryAll (budgets1.flatMap fun b1 => (budgets2 c.read).map fun b2 => (b1, b2))
 
 /-- one with-replacement call: depth-first search over the stop choices of the
-inner raw calls -/
+inner raw calls; returns the decoder afterwards (`none` = the Rust panicked) and the budgets chosen -/
 partial def checkRepl {F : Fam} (k : Sink) (src : List Nat) (c : CallRec)
-    (d : Decoder F) (totalRead : Nat) (acc : List Nat) (hadErr : Bool) (fuel : Nat) : Option (Option (Decoder F)) :=
+    (d : Decoder F) (totalRead : Nat) (acc : List Nat) (hadErr : Bool) (fuel : Nat) :
+    Option (Option (Decoder F) × List (Budget × Budget)) :=
   if fuel = 0 then none else
   let cap' := c.cap - acc.length
   let m := c.read - totalRead
-  let rec tryAll (seen : List (String × Nat × Nat)) : List (Budget × Budget) → Option (Option (Decoder F))
+  let rec tryAll (seen : List (String × Nat × Nat)) : List (Budget × Budget) → Option (Option (Decoder F) × List (Budget × Budget))
     | [] => none
     | (b1, b2) :: t =>
       match d.rawCall k (src.drop totalRead) c.last b1 b2 with
-      | .panic => if c.res == "P" then some none else tryAll seen t
+      | .panic => if c.res == "P" then some (none, [(b1, b2)]) else tryAll seen t
       | .ok res read out d' inner =>
         let key := (showRes res, read, out.length)
         if seen.contains key then tryAll seen t else
@@ -165,13 +167,24 @@ partial def checkRepl {F : Fam} (k : Sink) (src : List Nat) (c : CallRec)
           let units' := units ++ encodeUnits k [0xFFFD]
           if !(units'.isPrefixOf c.units) then tryAll (key :: seen) t else
           match checkRepl k src c d' (totalRead + read) units' true (fuel - 1) with
-          | some r => some r
+          | some (r, bs) => some (r, (b1, b2) :: bs)
           | none => tryAll (key :: seen) t
         | _ =>
           if showRes res == c.res && totalRead + read == c.read && units == c.units
-              && c.hadErrors == some hadErr then some (some d')
+              && c.hadErrors == some hadErr then some (some d', [(b1, b2)])
           else tryAll (key :: seen) t
   tryAll [] (budgets1.flatMap fun b1 => (budgets2 m).map fun b2 => (b1, b2))
+
+/-- The search above re-implements the loop step by step; the theorems are about `Decoder.replCall`.  Close the
+gap by execution: run the model's own loop (`Model.Decoder.replCallX`, proved equal to `Decoder.replCall`) with the
+budgets the search chose and require exactly the implementation's result. -/
+def verifyRepl {F : Fam} (k : Sink) (src : List Nat) (c : CallRec) (d : Decoder F)
+    (bs : List (Budget × Budget)) : Bool :=
+  match Decoder.replCallX k c.last (src.length + 9) d src bs with
+  | none => false
+  | some none => c.res == "P"
+  | some (some (res, read, out, hadErr, _)) =>
+    showRes res == c.res && read == c.read && encodeUnits k out == c.units && c.hadErrors == some hadErr
 
 def runDecHistory {F : Fam} (k : Sink) (repl : Bool) (nomIdent : String) (stream : List Nat)
     (calls : List CallRec) (d0 : Decoder F) (l1f : Decoder F → List Nat → Option Nat)
@@ -193,7 +206,11 @@ def runDecHistory {F : Fam} (k : Sink) (repl : Bool) (nomIdent : String) (stream
         | none => true
         | some (nn, v) => maxf d nn == v
       if !qxOk then s!"call#{i}: max_*_buffer_length queries near overflow (n={(c.qx.map (·.1)).getD 0}): model={maxf d ((c.qx.map (·.1)).getD 0)}" else
-      let r := if repl then checkRepl k src c d 0 [] false (src.length + 8) else checkRaw k d src c
+      let r := if repl then
+          match checkRepl k src c d 0 [] false (src.length + 8) with
+          | none => none
+          | some (d', bs) => if verifyRepl k src c d bs then some d' else none
+        else checkRaw k d src c
       match r with
       | none => s!"call#{i}: not admissible (n={c.n} cap={c.cap} last={c.last} impl={c.res} read={c.read} units={c.units.length})"
       | some none => if t.isEmpty then s!"ok {curIdent nomIdent d.cur}" else s!"call#{i}: calls after a panic"
